@@ -10,12 +10,12 @@ from datetime import date, datetime, timedelta
 from decimal import Decimal
 from fractions import Fraction
 
-from .opaque import OpaqueA, OpaqueB
+from .opaque import OpaqueA, OpaqueB, OpaqueSub
 
 _TYPES = {
     bool: "bool", int: "int", float: "float", complex: "complex", str: "str", bytes: "bytes",
     date: "date", datetime: "datetime", object: "object", list: "list", tuple: "tuple", dict: "dict",
-    Decimal: "Decimal", Fraction: "Fraction", OpaqueA: "OpaqueA", OpaqueB: "OpaqueB",
+    Decimal: "Decimal", Fraction: "Fraction", OpaqueA: "OpaqueA", OpaqueB: "OpaqueB", OpaqueSub: "OpaqueSub",
     timedelta: "timedelta", type(None): "NoneType",
 }
 
@@ -61,7 +61,7 @@ def encode(o):
         return f"Decimal({str(o)!r})"
     if t is Fraction:
         return f"Fraction({o.numerator}, {o.denominator})"
-    if t is OpaqueA or t is OpaqueB:
+    if t is OpaqueA or t is OpaqueB or t is OpaqueSub:
         return f"{t.__name__}({encode(o.payload)})"
     if t is slice:
         return f"slice({encode(o.start)}, {encode(o.stop)}, {encode(o.step)})"
@@ -80,7 +80,7 @@ def encode(o):
 _NS = {
     "nan": math.nan, "inf": math.inf, "complex": complex, "date": date, "datetime": datetime,
     "timedelta": timedelta, "Decimal": Decimal, "Fraction": Fraction, "OpaqueA": OpaqueA,
-    "OpaqueB": OpaqueB, "slice": slice, "range": range, "set": set, "frozenset": frozenset,
+    "OpaqueB": OpaqueB, "OpaqueSub": OpaqueSub, "slice": slice, "range": range, "set": set, "frozenset": frozenset,
     "True": True, "False": False, "None": None,
     "bool": bool, "int": int, "float": float, "str": str, "bytes": bytes, "object": object,
     "list": list, "tuple": tuple, "dict": dict, "NoneType": type(None),
